@@ -220,6 +220,7 @@ int main(int argc, char **argv) {
         if (nt == 0 || tok[0][0] == '#') continue;
         if (!strcmp(tok[0], "reporter")) strcpy(reporter_kind, tok[1]);
         else if (!strcmp(tok[0], "run")) { if (!strcmp(tok[1], "single")) { run_single = 1; strcpy(single, tok[2]); } else if (!strcmp(tok[1], "twice")) run_twice = 1; else if (!strcmp(tok[1], "inproc-forked")) run_twice = 2; }
+        else if (!strcmp(tok[0], "env") && nt >= 3) setenv(tok[1], tok[2], 1);
         else if (!strcmp(tok[0], "log")) logfd = open(tok[1], O_WRONLY | O_CREAT | O_APPEND, 0644);
         else if (!strcmp(tok[0], "kill")) { strcpy(kill_test, tok[1]); strcpy(kill_point, tok[2]); kill_nth = atoi(tok[3]); strcpy(kill_how, tok[4]); }
         else if (!strcmp(tok[0], "S")) {
